@@ -32,16 +32,38 @@ package bastion
 //@   ensures[C10.500] upd_err != nil && !isSentinel(upd_err) ==> rerr != nil
 //@   ensures[C10.cod] rerr == nil ==> sc == 200 || sc == 400 || sc == 403 || sc == 404 || sc == 409 || sc == 422 || sc == 500
 
-// parseBody: structural contract used by ServeHTTP (the text-format contract proper is C11's).
+// parseBody. G_n, G_row, G_off, G_k, G_cp stand for an arbitrary well-formed request (old size, k proof hashes
+// held in (row, off), checkpoint bytes): clauses mentioning them hold for every such request.
 //@ func parseBody
 //@   returns (size, proof, cp, err)
-//@   modifies rd_buf
+//@   let input     := old(rd_buf[refOf(r)])
+//@   let wellFormed := input == "old " ++ fmt_du(G_n()) ++ "\n" ++ encRest(G_row(), G_off(), 0, G_k(), G_cp())
+//@                     && !rd_err[refOf(r)] && G_k() < 1000000 && (forall j int :: 0 <= j && j < G_k() ==> len(G_row()[G_off() + j]) > 0)
+//@   modifies rd_buf, rd_err
 //@   ghostmodifies n_pb
 //@   ensures[ghost] n_pb == old(n_pb) + 1
-//@   // refused input is not partly understood: nothing is returned with an error
+//@   // what was written parses back to exactly that: old size, hashes in order, checkpoint bytes
+//@   ensures[C11.rt] wellFormed ==> err == nil && size == G_n() && len(proof) == G_k() && str(cp) == G_cp()
+//@   ensures[C11.rt] wellFormed ==> (forall j int :: 0 <= j && j < G_k() ==> str(proof[j]) == str(G_row()[G_off() + j]))
+//@   // refused input is not partly understood: nothing is returned with an error; accepted input has a well-formed old-size line
 //@   ensures[C11.z,C10.z] err != nil ==> size == 0 && proof == nil && cp == nil
 //@   ensures[C11.z,C10.z] err == nil ==> cp != nil
-//@   invariant#1 true
+//@   ensures[C11.w] err == nil ==> oldLineOK(lineOf(input))
+//@   ensures[C11.e] !hasLine(input) ==> err != nil
+//@   // instances of the (assumed) facts about the encoding that the proof needs, at the current position
+//@   hint old_ok(G_n())
+//@   hint line_1("old " ++ fmt_du(G_n()), encRest(G_row(), G_off(), 0, G_k(), G_cp()))
+//@   hint#1 encRest_step(G_row(), G_off(), len(proof), G_k(), G_cp())
+//@   hint#1 encRest_end(G_row(), G_off(), len(proof), G_k(), G_cp())
+//@   hint#1 b64_rt(str(G_row()[G_off() + len(proof)]))
+//@   hint#1 b64_len(str(G_row()[G_off() + len(proof)]))
+//@   hint#1 line_1(b64enc(str(G_row()[G_off() + len(proof)])), encRest(G_row(), G_off(), len(proof) + 1, G_k(), G_cp()))
+//@   hint#1 line_0(G_cp())
+//@   invariant#1 proof != nil && len(proof) >= 0
+//@   invariant#1 wellFormed ==> size == G_n() && len(proof) <= G_k() && rd_buf[b] == encRest(G_row(), G_off(), len(proof), G_k(), G_cp())
+//@   invariant#1 wellFormed ==> (forall j int :: 0 <= j && j < len(proof) ==> str(proof[j]) == str(G_row()[G_off() + j]))
+//@   invariant#1[C11.w] oldLineOK(lineOf(input)) && hasLine(input)
+//@   invariant#1 rd_err[b] == old(rd_err[refOf(r)])
 
 //@ func (*addHandler).ServeHTTP
 //@   let allowed  := allow_ok
@@ -55,7 +77,7 @@ package bastion
 //@   requires forall k string :: k in a.logs ==> a.logs[k].Origin == originFor(k)
 //@   modifies n_wo, wo_err, wo_h, n_gl, gl_err, gl_val, gl_h, n_set, set_err, set_arg, set_h, n_close, close_h, n_commit
 //@   modifies n_sign, sign_err, sign_out, sign_n, st_has, st_val, cnt, n_upd, upd_id, upd_old, upd_cp, upd_proof, upd_out, upd_err
-//@   modifies n_allow, allow_ok, n_pb, rd_buf, n_wh, wh_code, n_write, body_out, n_hdr, hdr_key, hdr_val
+//@   modifies n_allow, allow_ok, n_pb, rd_buf, rd_err, n_wh, wh_code, n_write, body_out, n_hdr, hdr_key, hdr_val
 //@   // always exactly one status line, one of the documented codes
 //@   ensures[C10.one,C19.one] n_wh == 1 && (wh_code == 200 || wh_code == 400 || wh_code == 403 || wh_code == 404 || wh_code == 409 || wh_code == 422 || wh_code == 429 || wh_code == 500)
 //@   // over the rate: 429 without reading the body or touching the witness
